@@ -267,6 +267,8 @@ func (g *gsm7Decoder) Transform(dst, src []byte, atEOF bool) (nDst, nSrc int, er
 	for x, b := range text {
 		dst[x] = b
 	}
+	// the whole input has been consumed
+	nSrc = len(src)
 	return nDst, nSrc, err
 }
 
@@ -293,8 +295,9 @@ func (g *gsm7Encoder) Transform(dst, src []byte, atEOF bool) (nDst, nSrc int, er
 		} else {
 			return 0, 0, ErrInvalidCharacter
 		}
-		nSrc++
 	}
+	// nSrc counts source octets, not characters: the whole input has been consumed
+	nSrc = len(src)
 
 	nDst = len(septets)
 	unpackedLen := nDst
